@@ -21,6 +21,47 @@ fn run_scc(exe: &PathBuf, args: &[String], secs: u64) -> std::io::Result<RunResu
     run_with_timeout(std::path::Path::new("/bin/sh"), &["-c".to_string(), script], Duration::from_secs(secs))
 }
 
+/// like run_scc, but the file path may be any byte string (passed through the environment, so
+/// that no quoting is involved)
+fn run_scc_os(exe: &PathBuf, before: &[String], file: &std::path::Path, after: &[String], secs: u64) -> std::io::Result<RunResult> {
+    use std::io::Read;
+    use std::os::unix::process::ExitStatusExt;
+    let b: Vec<String> = before.iter().map(|a| format!("'{a}'")).collect();
+    let a: Vec<String> = after.iter().map(|a| format!("'{a}'")).collect();
+    let script = format!("ulimit -v 6000000; exec '{}' {} \"$SCC_FILE\" {}", exe.display(), b.join(" "), a.join(" "));
+    let mut child = std::process::Command::new("/bin/sh")
+        .arg("-c")
+        .arg(script)
+        .env("SCC_FILE", file.as_os_str())
+        .stdin(std::process::Stdio::null())
+        .stdout(std::process::Stdio::piped())
+        .stderr(std::process::Stdio::piped())
+        .spawn()?;
+    let start = std::time::Instant::now();
+    let mut timed_out = false;
+    loop {
+        if child.try_wait()?.is_some() {
+            break;
+        }
+        if start.elapsed() > Duration::from_secs(secs) {
+            let _ = child.kill();
+            timed_out = true;
+            break;
+        }
+        std::thread::sleep(Duration::from_millis(2));
+    }
+    let status = child.wait()?;
+    let mut stdout = vec![];
+    let mut stderr = vec![];
+    if let Some(mut o) = child.stdout.take() {
+        let _ = o.read_to_end(&mut stdout);
+    }
+    if let Some(mut e) = child.stderr.take() {
+        let _ = e.read_to_end(&mut stderr);
+    }
+    Ok(RunResult { stdout, stderr, code: status.code(), signal: status.signal(), timed_out })
+}
+
 fn last_line(b: &[u8]) -> String {
     let s = String::from_utf8_lossy(b);
     let l = s.lines().find(|l| l.contains("panicked at")).or_else(|| s.lines().rev().find(|l| !l.trim().is_empty())).unwrap_or("");
@@ -96,8 +137,32 @@ pub fn byte_input(ctx: &Ctx, bytes: &[u8]) -> (Vec<u8>, &'static str) {
     }
 }
 
+/// file names a user may pass: the usual one, and names that stress path handling
+fn file_name(tag: u64, name_kind: usize) -> std::ffi::OsString {
+    use std::os::unix::ffi::OsStringExt;
+    let base = format!("cli_{tag:016x}");
+    match name_kind {
+        1 => base.into(),                                   // no extension
+        2 => format!("{base}.v1.2.sc").into(),              // several dots
+        3 => format!("{base} with blanks.sc").into(),       // blanks
+        4 => format!("{base}_éλ.sc").into(),                // non-ASCII (valid UTF-8)
+        5 => {
+            // a Latin-1 byte: not valid UTF-8
+            let mut b = base.into_bytes();
+            b.extend_from_slice(b"_caf\xe9.sc");
+            std::ffi::OsString::from_vec(b)
+        }
+        6 => format!("{base}.SC").into(),
+        _ => format!("{base}.sc").into(),
+    }
+}
+
 pub fn c18_cli_case(ctx: &Ctx, exe: &PathBuf, input: &[u8], kind: &str) -> CaseResult {
-    let file = ctx.scratch.join(format!("cli_{:016x}.sc", hash_str(&format!("{input:?}"))));
+    c18_cli_case_named(ctx, exe, input, kind, 0)
+}
+
+pub fn c18_cli_case_named(ctx: &Ctx, exe: &PathBuf, input: &[u8], kind: &str, name_kind: usize) -> CaseResult {
+    let file = ctx.scratch.join(file_name(hash_str(&format!("{input:?}")), name_kind));
     if std::fs::write(&file, input).is_err() {
         return CaseResult::Discard("infra: cannot write scratch file".into());
     }
@@ -105,8 +170,8 @@ pub fn c18_cli_case(ctx: &Ctx, exe: &PathBuf, input: &[u8], kind: &str) -> CaseR
     let fail = |summary: String| {
         CaseResult::Fail(Failure { kind: "cli".into(), summary, details: json!({"source_lossy": shown, "bytes": input, "input_kind": kind}) })
     };
-    let mut classes = vec![kind.to_string()];
-    let r = match run_scc(exe, &["-n".into(), "check".into(), file.display().to_string()], 60) {
+    let mut classes = vec![kind.to_string(), format!("cli: file name kind {name_kind}")];
+    let r = match run_scc_os(exe, &["-n".into(), "check".into()], &file, &[], 60) {
         Ok(r) => r,
         Err(e) => return CaseResult::Discard(format!("infra: cannot run scc: {e}")),
     };
@@ -128,7 +193,7 @@ pub fn c18_cli_case(ctx: &Ctx, exe: &PathBuf, input: &[u8], kind: &str) -> CaseR
             .map_or(false, |c| super::c18::valid_entry(&c));
         if valid {
             for backend in ["x86-64", "rv64"] {
-                let r = match run_scc(exe, &["-n".into(), "codegen".into(), file.display().to_string(), backend.into()], 60) {
+                let r = match run_scc_os(exe, &["-n".into(), "codegen".into()], &file, &[backend.to_string()], 60) {
                     Ok(r) => r,
                     Err(e) => return CaseResult::Discard(format!("infra: cannot run scc: {e}")),
                 };
@@ -159,6 +224,16 @@ pub fn c18_cli_case(ctx: &Ctx, exe: &PathBuf, input: &[u8], kind: &str) -> CaseR
 // ------------------------------------------------------------------------------------------
 
 pub fn c16_cli_case(ctx: &Ctx, exe: &PathBuf, text: &str, width: usize, indent: isize) -> CaseResult {
+    c16_cli_case_mode(ctx, exe, text, width, indent, 0)
+}
+
+/// mode 0: --inplace; 1: -o onto the file itself, same spelling; 2: -o onto the file itself under
+/// another spelling (./name, run from the file's directory); 3: -o to another file (the input must
+/// stay untouched and the output must be the formatted program)
+pub fn c16_cli_case_mode(ctx: &Ctx, exe: &PathBuf, text: &str, width: usize, indent: isize, mode: usize) -> CaseResult {
+    if mode != 0 {
+        return c16_output_case(ctx, exe, text, width, indent, mode);
+    }
     let Ok(p1) = pipeline::parse(text) else { return CaseResult::Discard("input does not parse".into()) };
     let file = ctx.scratch.join(format!("fmt_{:016x}.sc", hash_str(&format!("{text}{width}{indent}"))));
     if std::fs::write(&file, text).is_err() {
@@ -212,4 +287,60 @@ pub fn c16_cli_case(ctx: &Ctx, exe: &PathBuf, text: &str, width: usize, indent: 
         classes: vec!["cli: fmt --inplace".into()],
         sample: None,
     }
+}
+
+fn c16_output_case(ctx: &Ctx, exe: &PathBuf, text: &str, width: usize, indent: isize, mode: usize) -> CaseResult {
+    let Ok(p1) = pipeline::parse(text) else { return CaseResult::Discard("input does not parse".into()) };
+    let dir = ctx.scratch.join(format!("fmtdir_{:016x}_{mode}", hash_str(&format!("{text}{width}{indent}"))));
+    if std::fs::create_dir_all(&dir).is_err() {
+        return CaseResult::Discard("infra: cannot create scratch directory".into());
+    }
+    let name = "prog.sc";
+    let file = dir.join(name);
+    if std::fs::write(&file, text).is_err() {
+        return CaseResult::Discard("infra: cannot write scratch file".into());
+    }
+    let (input_arg, output_arg, out_path) = match mode {
+        1 => (name.to_string(), name.to_string(), file.clone()),
+        2 => (name.to_string(), format!("./{name}"), file.clone()),
+        _ => (name.to_string(), "out.sc".to_string(), dir.join("out.sc")),
+    };
+    let fail = |kind: &str, summary: String, formatted: Option<String>| {
+        let _ = std::fs::remove_dir_all(&dir);
+        CaseResult::Fail(Failure { kind: kind.into(), summary, details: json!({"source": text, "width": width, "indent": indent, "mode": mode, "formatted": formatted}) })
+    };
+    let script = format!(
+        "ulimit -v 6000000; cd '{}' && exec '{}' -n fmt --width {width} --indent {indent} -o '{output_arg}' '{input_arg}'",
+        dir.display(),
+        exe.display()
+    );
+    let r = match run_with_timeout(std::path::Path::new("/bin/sh"), &["-c".to_string(), script], Duration::from_secs(60)) {
+        Ok(r) => r,
+        Err(e) => return CaseResult::Discard(format!("infra: cannot run scc: {e}")),
+    };
+    match verdict(&r) {
+        Ok(true) => {}
+        Ok(false) => return fail("cli", format!("`scc fmt -o` reports an error on a file the parser accepts: {}", last_line(&r.stderr)), None),
+        Err(e) if e == "timeout" => return CaseResult::Discard("infra: scc fmt exceeded its time budget (inconclusive)".into()),
+        Err(e) => return fail("cli", format!("`scc fmt -o` dies: {e}"), None),
+    }
+    let written = std::fs::read_to_string(&out_path).unwrap_or_default();
+    let what = match mode {
+        1 => "formatting a file onto itself with -o (same spelling)",
+        2 => "formatting a file onto itself with -o under another spelling (./name)",
+        _ => "formatting to another file with -o",
+    };
+    match pipeline::parse(&written) {
+        Err(_) => return fail("unparsable", format!("{what} (width {width}, indent {indent}) leaves a file that does not parse"), Some(written)),
+        Ok(p2) if p2 != p1 => return fail("changed", format!("{what} (width {width}, indent {indent}) changes the program (the written file has {} bytes)", written.len()), Some(written)),
+        Ok(_) => {}
+    }
+    if mode == 3 {
+        // the input must be untouched
+        if std::fs::read_to_string(&file).unwrap_or_default() != text {
+            return fail("changed", "formatting to another file modifies the input file".into(), None);
+        }
+    }
+    let _ = std::fs::remove_dir_all(&dir);
+    CaseResult::Pass { nontrivial: true, hash: hash_str(&format!("{text}{width}{indent}{mode}")), classes: vec![format!("cli: fmt -o mode {mode}")], sample: None }
 }
